@@ -43,10 +43,11 @@ def MC(module, consts, invariants=(), properties=(), spec=None, dev=(), expect_v
 
 
 def GEN(module, consts, family, replay_args=(), workers=16, xmx="6g", timeout=1800, label=None,
-        view="View", known_const="Groups", min_cases=1, only_devs=None):
+        view="View", known_const="Groups", min_cases=1, only_devs=None, race=False, gen_family=None):
     return dict(kind="GEN", module=module, consts=consts, family=family, replay_args=list(replay_args),
                 workers=workers, xmx=xmx, timeout=timeout, label=label or module, view=view,
-                known_const=known_const, min_cases=min_cases, only_devs=only_devs)
+                known_const=known_const, min_cases=min_cases, only_devs=only_devs, race=race,
+                gen_family=gen_family or family)
 
 
 def TRACE(module, family, drive_args=(), consts=None, n=1000, xmx="6g", timeout=1800, label=None,
@@ -272,11 +273,11 @@ def parse_summary(out, label):
 def run_gen(ctx, st):
     consts = dict(st["consts"])
     if st["known_const"]:
-        consts[st["known_const"]] = "=" + fmt_groups(open_groups(ctx.findings, st["family"], st.get("only_devs")))
+        consts[st["known_const"]] = "=" + fmt_groups(open_groups(ctx.findings, st.get("gen_family", st["family"]), st.get("only_devs")))
     name = "run_%s_%d.cfg" % (st["module"], ctx.nrun)
     ctx.write_cfg(name, cfg_text(consts, view=st["view"]))
     cmd = ctx.tlc_cmd(st["module"], name, st["workers"], st["xmx"])
-    hb = ctx.harness()
+    hb = ctx.harness(race=st.get("race", False))
     t0 = time.time()
     tlc_log = os.path.join(ctx.dir, "tlc_%d.log" % ctx.nrun)
     with open(tlc_log, "w") as lf:
@@ -294,9 +295,16 @@ def run_gen(ctx, st):
     p = parse_tlc(text)
     if p["error"] or not p["finished"]:
         raise Infra("%s: TLC failed while generating cases:\n%s" % (st["label"], text[-3000:]))
-    if rp.returncode not in (0, 1):
+    raced = "WARNING: DATA RACE" in text
+    if rp.returncode not in (0, 1) and not raced:
         raise Infra("%s: replayer exit %d:\n%s" % (st["label"], rp.returncode, out[-1500:] + text[-1500:]))
     summ = parse_summary(out, st["label"])
+    if raced:
+        i = text.index("WARNING: DATA RACE")
+        ctx.violations.append(dict(stage=st["label"], family=st["family"], mode="replay", args=st["replay_args"], cls="data-race",
+                                   case=(summ.get("samples") or [None])[0], got=text[i:i + 3000],
+                                   want="no unsynchronised conflicting access between concurrent readers",
+                                   note="reported by the Go race detector while goroutines read one shared config"))
     res = dict(stage=st["label"], kind="GEN", states=p["distinct"], transitions=p["generated"],
                wall_s=round(time.time() - t0, 1), cmd=" ".join(cmd[7:]) + " | ucfgconf replay %s %s" %
                (st["family"], " ".join(st["replay_args"])))
